@@ -179,6 +179,7 @@ func genModule(pkgs []*packages.Package, m *Module, byName map[string]*Module, o
 		return nil
 	}
 	e := sym.New(pkgs)
+	e.Go64 = m.Spec.Dialect == "go64"
 	e.Specs[target.PkgPath] = m.Spec
 	for _, u := range m.Spec.UseMods {
 		um := byName[u[0]+"."+u[1]]
@@ -243,6 +244,30 @@ func genModule(pkgs []*packages.Package, m *Module, byName map[string]*Module, o
 			rr.Trusted = append(rr.Trusted, m.Name+": "+rep.Func+" (contract assumed, not verified)")
 		}
 		mk(rep)
+	}
+	if len(m.Spec.Invs) > 0 {
+		// induction over call histories: every exported method of the package preserves the module's invariants,
+		// also those that have no contract in this module
+		se := sym.New(pkgs)
+		se.Sweep = true
+		for _, p := range pkgs {
+			se.LoadGlobals(p.PkgPath)
+		}
+		for _, fn := range se.ExportedFuncs(target.PkgPath) {
+			if _, has := m.Spec.Funcs[fn.Name()]; has || fn.Name() == "_deploy" {
+				continue
+			}
+			if opt.OnlyFunc != "" && fn.Name() != opt.OnlyFunc {
+				continue
+			}
+			rep, err := se.InvMethod(target.PkgPath, fn, m.Spec)
+			if err != nil {
+				rr.GenErrors = append(rr.GenErrors, fmt.Sprintf("%s: invariants over %s: %v", m.Name, fn.Name(), err))
+				continue
+			}
+			rr.Funcs = append(rr.Funcs, FuncInfo{Module: m.Name, Func: rep.Func + " (invariants only)", File: relTo(opt.Root, rep.File), Line: rep.Line, SrcSHA256: rep.SrcHash, Exits: rep.Exits, FaultExits: rep.FaultExits, Obligations: len(rep.Obligations)})
+			mk(rep)
+		}
 	}
 	if opt.OnlyFunc == "" {
 		if len(m.Spec.Lemmas) > 0 {
